@@ -55,6 +55,9 @@ func behaviour(p *pipeline.Pipeline) (*sem.Behaviour, error) {
 
 // diverges runs a history and compares, after the last batch (and after every batch when
 // every is set), with a fresh pipeline. It returns the index of the first diverging batch.
+// lastConvLog holds the converter's warnings of the last batch applied by diverges.
+var lastConvLog []string
+
 func diverges(h [][]pipeline.Change, every bool, tag string) (int, []string, error) {
 	dir := filepath.Join(workdir, "o"+tag)
 	os.RemoveAll(dir)
@@ -67,6 +70,7 @@ func diverges(h [][]pipeline.Change, every bool, tag string) (int, []string, err
 		if err := p.Apply(b); err != nil {
 			return -1, nil, fmt.Errorf("apply: %v", err)
 		}
+		lastConvLog = p.ConvLog.Take()
 		if !every && i < len(h)-1 {
 			continue
 		}
@@ -119,33 +123,23 @@ func describe(h [][]pipeline.Change) []string {
 // key; anything else is keyed by the shape of the history so that it is never mistaken
 // for a known finding.
 func classify(h [][]pipeline.Change, diff []string) string {
-	onlyDefaultHostRoutes := len(diff) > 0
-	for _, d := range diff {
-		if !strings.HasPrefix(d, "route ") {
-			onlyDefaultHostRoutes = false
-			break
-		}
-		if !strings.Contains(d, "req.defaultbackend") && !strings.Contains(d, "\"req.host\":\"\"") &&
-			!strings.Contains(d, "unknown.example") {
-			onlyDefaultHostRoutes = false
-			break
-		}
-	}
-	ingDefaultBackend := false
-	for i, b := range h {
-		if i == 0 && len(h) > 1 {
-			continue
-		}
-		for _, c := range b {
-			if ing, ok := c.Obj.(*networking.Ingress); ok && c.Op != pipeline.Delete && ing.Spec.DefaultBackend != nil {
-				ingDefaultBackend = true
+	// cause: an added/updated ingress whose spec.defaultBackend should take over the root path
+	// of the default host (it sorts before the current owner) but is skipped because the
+	// default host is not dirty: trackAddedIngress does not pre-track the default host.
+	// Recognised by the call site: the converter logs the skip for an ingress of the batch.
+	if len(h) > 1 {
+		for _, c := range h[len(h)-1] {
+			ing, ok := c.Obj.(*networking.Ingress)
+			if !ok || c.Op == pipeline.Delete || ing.Spec.DefaultBackend == nil {
+				continue
+			}
+			want := fmt.Sprintf("skipping default backend of Ingress '%s/%s': path / was already defined on default host", ing.Namespace, ing.Name)
+			for _, l := range lastConvLog {
+				if strings.Contains(l, want) {
+					return "C01/ingress-default-backend-not-pretracked"
+				}
 			}
 		}
-	}
-	if onlyDefaultHostRoutes && ingDefaultBackend {
-		// an added/updated ingress whose spec.defaultBackend should take over the root path
-		// of the default host: trackAddedIngress does not pre-track the default host
-		return "C01/ingress-default-backend-not-pretracked"
 	}
 	var shape []string
 	for _, b := range h {
